@@ -264,7 +264,7 @@ def run_impl(case):
     """Run the real constraints_to_vertices; returns the record of everything observed."""
     import numpy as np
     import pacti
-    assert os.path.realpath(pacti.__file__).startswith("/repo/src"), pacti.__file__
+    assert os.path.realpath(pacti.__file__).startswith(os.path.realpath(os.environ.get("VERIF_REPO", "/repo")) + "/src"), pacti.__file__
     import pacti.utils.plots as P
     from pacti.iocontract import Var
     from gen import mktl
